@@ -292,6 +292,10 @@ def inheritance_shape(pm: pyexec.PyModel, cls: str) -> str:
     return "multiple-bases" if multi else "single-chain"
 
 
+_STRUCTURAL = ("unexpected-child", "content-incomplete", "character-data")
+_BOUND_KINDS = {"pattern": ("pattern",), "length-greater": ("max",), "length-lesser": ("min",)}
+
+
 def rejection_key(pm: pyexec.PyModel, exp: xschema.Expectations, nodes: Optional[List[xschema.ObjectNode]],
                   inst: instances.Inst, error: Any) -> str:
     """Mechanism of a valid document that a validator rejects."""
@@ -299,6 +303,14 @@ def rejection_key(pm: pyexec.PyModel, exp: xschema.Expectations, nodes: Optional
     elem = getattr(error, "elem", None)
     if nodes is None or elem is None:
         return f"valid-document-rejected/{kind}/unmapped"
+    if kind in _STRUCTURAL:
+        # the content of an object element (or of the element of a class-typed property)
+        for node in nodes:
+            if node.elem is elem:
+                shape = inheritance_shape(pm, node.inst.cls)
+                if shape == "diamond":
+                    return f"valid-document-rejected/diamond-inheritance/{kind}"
+                return f"valid-document-rejected/{kind}/{shape}"
     for node in nodes:
         decl = {p.name: d for d, p in pm.all_props(node.inst.cls)}
         for name, t, pelem in node.props:
@@ -308,7 +320,7 @@ def rejection_key(pm: pyexec.PyModel, exp: xschema.Expectations, nodes: Optional
                 role = "list" if base_t.kind == "list" else "value"
             elif any(child is elem for child in pelem) and base_t.kind == "list":
                 role = "item"
-            if role is None or (role == "value" and pm.is_class(base_t.name)):
+            if role is None:
                 continue
             pe = exp.by_prop.get((decl[name], name))
             tname = base_t.inner.name if base_t.kind == "list" and base_t.inner else base_t.name
@@ -319,17 +331,12 @@ def rejection_key(pm: pyexec.PyModel, exp: xschema.Expectations, nodes: Optional
             cause = "no-recognised-constraint"
             if pe is not None:
                 ve = pe.item if (role == "item") else pe.value
-                forms = sorted({f"{b.origin}:{b.form}" for b in ve.bounds})
+                wanted = _BOUND_KINDS.get(kind, ("min", "max") if role == "list" else ("min", "max", "pattern"))
+                forms = sorted({f"{b.origin}:{b.form}" for b in ve.bounds if b.kind in wanted})
                 if forms:
-                    cause = "+".join(forms)[:120]
+                    cause = "+".join(forms)[:100]
             inherited = "inherited" if decl[name] != node.inst.cls else "own"
             return f"valid-document-rejected/{kind}/{what}/{inherited}/{cause}"
-    for node in nodes:
-        if node.elem is elem or any(pe is elem for _, _, pe in node.props):
-            shape = inheritance_shape(pm, node.inst.cls)
-            if shape == "diamond":
-                return f"valid-document-rejected/diamond-inheritance/{kind}"
-            return f"valid-document-rejected/{kind}/{shape}"
     return f"valid-document-rejected/{kind}/unlocated"
 
 
@@ -466,6 +473,10 @@ def second_opinion(chk: harness.Check, run: xschema.XsdRun, docs: List[Tuple[str
         chk.unavailable_leg("xmllint second opinion unavailable")
         return
     chk.hist("xmllint_second_opinion", "schema-compiles" if got["schema_ok"] else "schema-refused")
+    if not got["schema_ok"]:
+        lines = [ln for ln in got["text"].splitlines() if "error" in ln]
+        head = lines[0].split("error", 1)[1] if lines else got["text"][-200:]
+        chk.hist("xmllint_refuses_schema_that_xmlschema_builds", rg.norm_text(head, 10))
     for path, (_, rejected) in zip(paths, docs):
         verdict = got["valid"].get(path)
         if verdict is None:
@@ -645,10 +656,10 @@ def main(argv) -> int:
                 chk.merge(job.result())
             except Exception as err:
                 chk.harness_error(f"worker failed: {err!r}")
-    chk.require_min("schemas_loaded_in_xsd10_and_xsd11", chk.pick(80, 1200))
-    chk.require_min("documents_validated", chk.pick(300, 8000))
-    chk.require_min("constrained_values_in_validated_documents", chk.pick(150, 4000))
-    chk.require_min("pattern_member_strings_validated", chk.pick(400, 8000))
+    chk.require_min("schemas_loaded_in_xsd10_and_xsd11", chk.pick(60, 1000))
+    chk.require_min("documents_validated", chk.pick(150, 6000))
+    chk.require_min("constrained_values_in_validated_documents", chk.pick(150, 5000))
+    chk.require_min("pattern_member_strings_validated", chk.pick(200, 5000))
     chk.assume("a document is judged only if Python evaluates every invariant of the instance to True and all its strings are XML 1.0 characters (no line breaks when the model declares a pattern)")
     chk.assume("an escape inside xs:pattern that the XSD regex grammar (XSD 1.0 app. F / 1.1 app. G) does not define makes the schema invalid even where xmlschema and libxml2 tolerate it")
     chk.assume("xmllint is reported as a second opinion only")
